@@ -70,6 +70,9 @@ type FileSpec struct {
 	// "buf" = AttachReader/EmbedReader with a *bytes.Buffer that the caller reuses afterwards, "rs" = …ReadSeeker,
 	// "file" = AttachFile/EmbedFile of a real file, "tpl" = …TextTemplate.  (Not with a failing producer.)
 	Src string
+	// PreCTE: a Content-Transfer-Encoding header the caller has put on the File (custom FileOption writing
+	// File.Header): addFiles honours it — header and body encoding both follow it, whatever Enc says
+	PreCTE string
 }
 
 type KV struct {
@@ -203,6 +206,10 @@ func (s *MsgSpec) Build() (*mail.Msg, error) {
 		}
 		if f.CID != "" {
 			fo = append(fo, mail.WithFileContentID(f.CID))
+		}
+		if f.PreCTE != "" {
+			pre := f.PreCTE
+			fo = append(fo, func(fl *mail.File) { fl.Header.Set("Content-Transfer-Encoding", pre) })
 		}
 		var err error
 		content := f.Prod.Content()
